@@ -258,6 +258,28 @@ CpVectors(r) ==
       [] r.ev \in {"Restart", "Crash"} -> \A p \in PeerNames : pf'[p].cps = <<0, <<>> >>
       [] OTHER -> CpOnlyChange({})
 
+\* What the client asks for is sound in every step (post-state): proofs only for matched blocks / fetch entries it
+\* holds, against the stored tip; bodies only of matched blocks that are already proved (C02 / C06: nothing
+\* unproved is ever downloaded); filters only from the next unfiltered block on; everything of proven peers only.
+SendsSound(r) ==
+    \A m \in ToSet(r.out.sent) :
+        /\ m.kind \in {"GetBlocksProof", "GetTransactionsProof", "GetBlocks", "GetBlockFilters",
+                       "GetBlockFilterHashes", "GetBlockFilterCheckPoints"}
+              => HasProof(peer'[m.to])
+        /\ m.kind = "GetBlocksProof" =>
+              /\ m.last = tip'
+              /\ {h \in ToSet(m.hashes) : h >= 1} \subseteq {e[1] : e \in mmem'} \cup {e[1] : e \in fetchH'}
+        /\ m.kind = "GetTransactionsProof" =>
+              /\ m.last = tip'
+              /\ {h \in ToSet(m.hashes) : h >= 1} \subseteq {e[1] : e \in fetchT'}
+        \* (the blocks an accepted SendBlocksProof has just proved are asked for even if set_scripts has emptied the
+        \*  map meanwhile: a proven block that nobody waits for; its arrival is ignored)
+        /\ m.kind = "GetBlocks" =>
+              {h \in ToSet(m.hashes) : h >= 1} \subseteq
+                  {e[1] : e \in {x \in mmem' : x[2]}}
+                  \cup (IF r.ev = "BlocksProof" /\ r.out.ban = <<>> THEN ToSet(r.a.hs) ELSE {})
+        /\ m.kind = "GetBlockFilters" => m.start = minF' + 1
+
 \* C17: is the write `label` of operation op inside the operation's critical section (matched-blocks write lock)
 InLock(op, label) ==
     /\ op \in {"SetScripts", "Filters", "Block", "Fork"}
@@ -324,6 +346,7 @@ TraceNext ==
        ELSE /\ UNCHANGED <<expPre, expOut>>
             /\ r.ev # "DeadStore"     \* C08: a store that aborts on every start is never a step
             /\ UNCHANGED <<world, cfg>> /\ LoadPs(r) /\ LoadFs(r) /\ Step(r)
+            /\ (r.ev \notin {"Crash", "Panic", "Restart"} => SendsSound(r))
             /\ CpAppendOnly                \* C07: at every step, crashes included
             /\ CpTrue
             /\ CpVectors(r)
